@@ -11,18 +11,23 @@ Thorough == IOEnv.VERIF_TIER = "thorough"
 C012 == IF Thorough THEN {0, 1, 2} ELSE {0, 2}      \* quick: empty / populated; thorough adds the singleton class
 
 Lens(n, base) == [j \in 1..n |-> base + 2 * j]       \* distinct string lengths
-RootShapes ==
+RootShapesAll ==
   { [kind |-> "root", ver |-> v, ntex |-> a, nmat |-> b, ngrp |-> c, nport |-> d, npv |-> 4,
      npref |-> e, nvbl |-> f, vbl |-> 3, nlight |-> g, ndd |-> h, nds |-> i, sky |-> s, skylen |-> 9,
      texlens |-> Lens(a, 3), grplens |-> Lens(c, 1), ddlens |-> Lens(h, 8)] :
      v \in Versions, a \in {0, 2}, b \in C012, c \in C012, d \in {0, 2}, e \in {0, 2}, f \in {0, 2},
      g \in {0, 2}, h \in C012, i \in {0, 2}, s \in {0, 1} }
-GroupShapes ==
+GroupShapesAll ==
   { [kind |-> "group", ver |-> v, nvert |-> a, nidx |-> b, nnorm |-> c, ntc |-> d, ncol |-> e, nbatch |-> f,
      nbsp |-> g, liq |-> h, lw |-> 3, lh |-> 2, ndref |-> i] :
      v \in Versions, a \in {0, 2}, b \in {0, 3}, c \in {0, 2}, d \in {0, 2}, e \in {-1, 0, 2}, f \in {0, 1},
      g \in {-1, 0, 2}, h \in {0, 1, 2}, i \in {-1, 0, 2} }
 
+\* quick: tie some dimensions together (the full product is the thorough tier)
+RootShapes  == IF Thorough THEN RootShapesAll
+               ELSE {r \in RootShapesAll : r.nport = r.npref /\ r.nvbl = r.nlight}
+GroupShapes == IF Thorough THEN GroupShapesAll
+               ELSE {r \in GroupShapesAll : r.nnorm = r.ntc /\ r.ncol # 0 /\ r.nbsp # 0 /\ r.ndref # 0}
 Init == LInit(RootShapes \cup GroupShapes)
 Next == LNext
 =============================================================================
